@@ -272,6 +272,18 @@ def test_mask_reaches_configs_nested_in_containers():
     assert "TOPSECRET" in repr(cfg.to_tree())
 
 
+def test_mask_survives_virtual_field_that_renders_its_own_config():
+    item = cc.Schema()
+    item.pw = cc.StringField(sensitive=True)
+    s = cc.Schema()
+    s.fingerprint = cc.VirtualField(lambda cfg: len(cfg.dumps("json")))
+    s.d = cc.DictField(cc.StringField(), cc.ListField(item))
+    cfg = s()
+    cfg.d = {"k": [item(pw="TOPSECRET")]}
+    assert "TOPSECRET" not in repr(cfg.to_tree(virtual=True, sensitive_mask="*"))
+    assert b"TOPSECRET" not in cfg.dumps("json", virtual=True, sensitive_mask="XX")
+
+
 def test_declared_field_governs_key_of_older_dynamic_value(tmp_path):
     key = tmp_path / "k.key"
     key.write_bytes(bytes(range(32)))
